@@ -179,7 +179,7 @@ class C10(core.Property):
     rule = ("family policy-exact (≈7/12): one of the five policies with parameters on the float-exact grid, ≤60 "
             "acquire / time_until_available / drain / feedback operations at grid times placed on, one step before and "
             "one step after refill and window boundaries; family policy-tol (≈1/4): arbitrary decimal parameters and "
-            "nanosecond-adjacent times, compared where the exact model's margin is clear; of these, ≈1/3 are 'follow' scripts: off-grid "
+            "nanosecond-adjacent times, compared where the exact model's margin is clear; of these, ≈1/3 are 'follow' scripts (10% of their rounds end with the impatient caller: time_until_available at t, then an acquire 1 ns before t + wait): off-grid "
             "parameters — window sizes / rates written as decimals with 1–4 fractional digits, 60 % of them chosen so that truncating and "
             "rounding x·1e9 differ by 1 ns (1.001 s, 1.017 s, 33.3/s) — and 2–6 rounds of: take everything granted at one instant, then arrive "
             "exactly at t + time_until_available(t) again and again (drain) or ask and try at once; family entity (≈1/6): "
@@ -460,8 +460,12 @@ class C10(core.Property):
             r = rng.random()
             if r < 0.7:
                 ops.append(["drain", t])
-            elif r < 0.85:
+            elif r < 0.8:
                 ops += [["tua", t], ["acq", t]]
+            elif r < 0.9:
+                # the impatient caller: asks for the wait and tries ONE NANOSECOND before it has elapsed
+                # (`early` = tua at t, then acq at t + wait - 1 ns when the wait is at least 2 ns)
+                ops.append(["early", t])
             else:
                 ops += [["tua", t], ["drain", t]]
             if k == "ad" and rng.random() < 0.3:
@@ -773,6 +777,12 @@ class C10(core.Property):
                 d = int(bool(pol.try_acquire(Instant(cur))))
                 now = cur
                 out.append(f"drain {t} {' '.join(map(str, ws))} {d}")
+            elif kind == "early":
+                w = pol.time_until_available(Instant(t)).nanoseconds
+                out.append(f"tua {t} {w}")
+                if w >= 2:
+                    now = t + w - 1
+                    out.append(f"acq {now} {int(bool(pol.try_acquire(Instant(now))))}")
             elif kind in ("succ", "fail"):
                 if kind == "succ":
                     pol.record_success(Instant(t))
@@ -903,6 +913,10 @@ class C10(core.Property):
             return (f"entity {10**18 if case['qcap'] == 'inf' else case['qcap']} {cfg}", sched)
         if case["mode"] == "tol":
             hints = self._impl_cached(case)
+            if any(op[0] == "early" for op in case["ops"]) and hints and not any(h.startswith("IMPL-") for h in hints):
+                # the time of the second half of an `early` op is the code's own answer: the model replays the
+                # implementation's operation lines (operation, time, the code's answer as the tol-mode hint)
+                return (f"policy tol {cfg}", [" ".join(h.split()) for h in hints])
             body = []
             for k, op in enumerate(case["ops"]):
                 h = hints[k].split()[2:] if k < len(hints) and not hints[k].startswith("IMPL-") else []
